@@ -1152,6 +1152,16 @@ def resume_cases():
                             s['alpn'] = [0, 1]
                         out.append({'id': 'resume-%s-%s-%d' % (vname, kind, len(out)), 'client': c, 'server': s,
                                     'resume': {'kind': kind, 'c2': {}, 's2': {}}})
+    # SSLv3: a client that offers nothing above SSLv3 sends no extensions (no ticket possible); a client that does
+    # offer TLS 1.0 against an SSLv3-only server sends them
+    for kind in ('id', 'ticket'):
+        for cmax in (0, 1, 3):
+            c = {'settings': dict(D(), minVersion=[3, 0], maxVersion=[3, cmax], versions=[[3, x] for x in range(cmax, -1, -1)]),
+                 'flavour': 'cert'}
+            s = {'settings': dict(D(), minVersion=[3, 0], maxVersion=[3, 0], versions=[[3, 0]], ticket_keys=kind == 'ticket'),
+                 'cert': 'rsa'}
+            out.append({'id': 'resume-sslv3-%s-c%d-%d' % (kind, cmax, len(out)), 'client': c, 'server': s,
+                        'resume': {'kind': kind, 'c2': {}, 's2': {}}})
     # ALPN negotiated on the first connection, not offered on the resumed one
     for kind in ('id', 'ticket'):
         c = {'settings': dict(D(), **tls12), 'flavour': 'cert', 'alpn': [1]}
